@@ -242,6 +242,12 @@ impl Farm {
     }
 
     fn run_one_on(&self, p: &Project, mode: Mode, k: usize) -> FarmOut {
+        // several checks may run at the same time and share the worker target dirs: hold an exclusive file
+        // lock on the worker for build + run + clean-up (released when `_guard` is dropped)
+        let _guard = {
+            let lock_path = Self::target_dir(k).with_extension("lock");
+            std::fs::OpenOptions::new().create(true).write(true).truncate(false).open(&lock_path).ok().and_then(|f| f.lock().ok().map(|_| f))
+        };
         let mut out = FarmOut::default();
         let dir = self.case_dir();
         Self::write_project(&dir, p);
